@@ -116,6 +116,7 @@ func chanK1Case(h *hctx, id int) {
 	}
 	defer c.Close()
 	nops := 6 + h.rng.Intn(24)
+	closeBias := h.pi("closebias", 0) == 1 // C12: make Close/Cancel (often right after a Rollback) frequent
 	var ops, outs [][]int
 	next := 1 + id*1000
 	srcClosed := false
@@ -123,6 +124,9 @@ func chanK1Case(h *hctx, id int) {
 	closedAt := -1
 	for k := 0; k < nops; k++ {
 		r := h.rng.Intn(100)
+		if closeBias && closedAt < 0 && k > 4 && h.rng.Intn(6) == 0 {
+			r = 95 + h.rng.Intn(3)
+		}
 		switch {
 		case r < 24 && !srcClosed:
 			burst := 1 + h.rng.Intn(3)
